@@ -47,7 +47,7 @@ def main():
                                  "monitor not built yet in this session (work in progress; applicable in principle, see DESIGN.md section 3)")})
     man = {
         "version": 1,
-        "setup_cmd": f"{PY} -m pip install -q --no-index --find-links /opt/veriftools/wheels --target /verif/.deps icontract jsonschema || true",
+        "setup_cmd": f"{PY} -m pip install -q --no-index --find-links /opt/veriftools/wheels --target /verif/.deps --upgrade icontract jsonschema networkx || true",
         "hooks": {
             "guard": "QUIMB_VERIF",
             "enable": "no source hooks: monitors are attached from /verif at run time (qmon/attach.py); the guard variable is set by check.py for its worker processes and read by nothing in /repo",
